@@ -218,6 +218,14 @@ pub fn universe(thorough: bool) -> Vec<OwnedTerm> {
             }
         }
     }
+    // terms nested deeper than anything a decoder accepts (they can be built in memory): differences at the bottom still count
+    for depth in [255usize, 257, 300] {
+        for leaf in [int(1), int(2)] {
+            let (mut l, mut t, mut c) = (leaf.clone(), leaf.clone(), leaf.clone());
+            for _ in 0..depth { l = OwnedTerm::List(vec![l]); t = OwnedTerm::Tuple(vec![t]); c = OwnedTerm::ImproperList { elements: vec![int(0)], tail: Box::new(c) }; }
+            u.push(l); u.push(t); u.push(c);
+        }
+    }
     // drop structural duplicates (same variant and fields)
     let mut seen = std::collections::HashSet::new();
     u.retain(|t| seen.insert(crate::denote::repr(t)));
